@@ -98,7 +98,7 @@ def c02(res, tier, deadline):
           "n=1-4,k=1,d=2,shapes=R|NR,pres=split|direct,rev=0|1;"
           "n=1-4,k=2,d=2,shapes=RR|RNR,pres=split|direct,rev=0|1" % n)
     if tier != "quick":
-        sp += ";n=6,k=1,d=3,shapes=R;n=1-4,k=3,d=2,shapes=RRR|RNRNR;n=1-3,k=4,d=2,shapes=RRRR"
+        sp += ";n=6,k=1,d=3,shapes=R;n=1-4,k=3,d=2,shapes=RRR|RNRNR;n=1-3,k=4,d=2,shapes=RRRR;n=6,k=2,d=2,shapes=RR|RNR"
     for tag in ("rel", "dbg", "thr", "map"):
         runs.append(Run(tag, "dispatch", sp, "C02", dump_mod=997))
     # the deprecated facet: default error handler in place, throwing call_error
@@ -241,7 +241,8 @@ def c17(res, tier, deadline):
     else:
         runs = [Run("rel", "report", "n=1-4,k=2,d=3,shapes=RR;n=5,k=2,d=3,shapes=RR;"
                     "n=1-5,k=1,d=3,shapes=R,two=1;n=1-4,k=3,d=2,shapes=RRR;"
-                    "n=1-5,k=2,d=2,shapes=RR,two=1;n=1-3,k=4,d=2,shapes=RRRR"),
+                    "n=1-5,k=2,d=2,shapes=RR,two=1;n=1-3,k=4,d=2,shapes=RRRR;"
+                    "n=6,k=2,d=2,shapes=RR;n=6,k=1,d=3,shapes=R;n=5,k=3,d=1,shapes=RRR;n=4,k=4,d=1,shapes=RRRR"),
                 Run("dbg", "report", "n=1-4,k=2,d=3,shapes=RR")]
     e1.execute(res, runs, deadline_total=deadline, second_oracle=False)
 
